@@ -375,10 +375,44 @@ fn check_any(m: &mut dr::Module, r: &mut Report, rp: &dyn Fn() -> Json, what: &s
 fn edit(m: &mut dr::Module, rng: &mut Rng) -> String {
     let mut log = vec![];
     for _ in 0..rng.below(4) {
-        match rng.below(10) {
+        match rng.below(13) {
             0 => {
                 m.header = None;
                 log.push("no header");
+            }
+            10 | 11 => {
+                // operand values a loader would not produce: a literal of the other width (e.g. 32-bit case
+                // literals under a 64-bit selector), an id operand naming another instruction's id
+                let ids: Vec<u32> = m.all_inst_iter().filter_map(|i| i.result_id).collect();
+                let pick = rng.next();
+                let n_cand = m.all_inst_iter().filter(|i| i.operands.iter().any(|o| matches!(o, Operand::LiteralBit64(_) | Operand::LiteralBit32(_) | Operand::IdRef(_)))).count();
+                if n_cand > 0 {
+                    let target = (pick % n_cand as u64) as usize;
+                    let r2 = rng.next();
+                    if let Some(inst) = m.all_inst_iter_mut().filter(|i| i.operands.iter().any(|o| matches!(o, Operand::LiteralBit64(_) | Operand::LiteralBit32(_) | Operand::IdRef(_)))).nth(target) {
+                        let all = r2 % 3 == 0;
+                        for o in inst.operands.iter_mut() {
+                            let newo = match o {
+                                Operand::LiteralBit64(v) => Operand::LiteralBit32(*v as u32),
+                                Operand::LiteralBit32(v) if r2 % 5 != 0 => Operand::LiteralBit64(*v as u64 | (r2 & 0xffff_0000_0000)),
+                                Operand::IdRef(_) if !ids.is_empty() && r2 % 7 < 3 => Operand::IdRef(ids[(r2 >> 8) as usize % ids.len()]),
+                                _ => continue,
+                            };
+                            *o = newo;
+                            if !all {
+                                break;
+                            }
+                        }
+                        log.push("operand rewritten (literal width / id)");
+                    }
+                }
+            }
+            12 => {
+                if let Some(h) = m.header.as_mut() {
+                    h.version = crate::genmod::random_version(rng);
+                    h.generator = rng.u32();
+                    log.push("header version / generator changed");
+                }
             }
             1 => {
                 if let Some(f) = rng.pick_mut(&mut m.functions) {
@@ -472,13 +506,13 @@ pub fn run(cfg: &Cfg, rep: &mut Report) {
     let n = cfg.n(6_000, 2_000_000);
     run_stage(cfg, rep, "realistic", n, |idx, rng, r| {
         let (label, words) = if idx % 3 != 0 {
-            let variant = if rng.chance(1, 2) { 9 + rng.next() % 2 } else { rng.next() % crate::scale::N_VARIANTS };
+            let variant = match rng.below(4) { 0 | 1 => 9 + rng.next() % 2, 2 => *rng.pick(&[1u64, 7, 7, 11]), _ => rng.next() % crate::scale::N_VARIANTS };
             if matches!(variant, 3 | 4) && rng.chance(7, 8) {
                 return;
             }
             let (label, insts) = crate::scale::scale_module(rng, variant);
             let bound = insts.iter().filter_map(|i| i.rid).max().unwrap_or(0).saturating_add(1);
-            let (w, _, _) = crate::genmod::encode_module(0x0001_0600, 0, bound, &insts, None);
+            let (w, _, _) = crate::genmod::encode_module(crate::genmod::random_version(rng), 0, bound, &insts, None);
             (label, w)
         } else {
             let small = rng.chance(1, 2);
